@@ -23,7 +23,7 @@ RULE = ("cells = kernel basis {RBF, Matern-ARD, Scale(RBF), RBF+Matern on differ
 ASSUMPTIONS = ["the eager dense matrix is the reference for the lazy one (C05 decides the values themselves)",
                "index tensors in one matrix dimension at a time together with slices/ints in the other; paired row/col tensors are also covered"]
 
-BASIS = ["rbf", "matern_ard", "scale_rbf", "sum_ad", "prod", "periodic", "multitask", "rbfgrad", "rq", "rbfgrad_ard", "linear_ard"]
+BASIS = ["rbf", "matern_ard", "scale_rbf", "sum_ad", "prod", "periodic", "multitask", "rbfgrad", "rq", "rbfgrad_ard", "linear_ard", "kiss"]
 TRIPLES = [((), (), ()), ((2,), (2,), (2,)), ((), (2,), (2,)), ((2,), (), ()), ((), (2,), ()), ((2,), (1,), (2,)), ((2, 1), (1, 3), (2, 3)),
            ((), (1, 3), (2, 1)), ((3,), (2, 3), (3,)), ((2,), (2,), ())]
 D = 3
@@ -51,6 +51,8 @@ def make_kernel(name, kb, ad):
         return K.RQKernel(**kw)
     if name == "linear_ard":
         return K.LinearKernel(ard_num_dims=nd, **kw)
+    if name == "kiss":  # a kernel that holds NON-batched buffers (its grid) next to batched parameters
+        return K.GridInterpolationKernel(K.RBFKernel(batch_shape=bs), grid_size=12, grid_bounds=[(-6.0, 6.0)] * nd, **({"active_dims": ad} if ad is not None else {}))
     if name == "multitask":
         return K.MultitaskKernel(K.RBFKernel(**kw), num_tasks=2, rank=1, batch_shape=bs)
     if name == "rbfgrad":
@@ -82,7 +84,7 @@ def cells(tier, seed):
     for kern, (kb, x1b, x2b), ad in itertools.product(BASIS, TRIPLES, [None, [0], [0, 2], [2, 0, 1]]):
         if ad == [2, 0, 1] and (kern not in ("matern_ard", "linear_ard", "rbfgrad_ard", "scale_rbf") or (tier == "quick" and (kb or x1b or x2b))):
             continue  # a permutation of all columns: only kernels with per-column parameters can tell (scale_rbf: inherited active_dims)
-        if kern == "sum_ad" and ad is not None:
+        if kern in ("sum_ad", "kiss") and ad is not None:
             continue
         try:
             B = torch.broadcast_shapes(kb, x1b, x2b)
